@@ -125,3 +125,12 @@ add("C18", "registry monitor: all single-fault mutants of a valid model "
     "operations, ~1200 sys.path comparisons per quick run).",
     "Model error = subclass of ModelError; unimportable = missing file / "
     "missing module / missing name / syntax error; unique stems per file.")
+add("C16", "fault enumeration at the h5py write boundary (every create_group "
+    "/ create_dataset / attribute write of a save fails once) plus save "
+    "sequence monitor with structural container dumps before/after each save "
+    "and round-trip oracle on every stored entry",
+    "Every write call of the fault-enumerated saves was failed once (~40 per "
+    "save, 16 saves per quick run); held on all save sequences observed.",
+    "Faults are exceptions at h5py write calls (process kills inside the HDF5 "
+    "library are out of reach); time-stamp attributes ignored in dumps.",
+    category="fault_enumeration")
